@@ -1,7 +1,8 @@
 (* C01Theorems.v — the property theorems of C01 (decode then encode is lossless outside reserved fields).
    Each is closed by `exact <lemma>` and followed by Print Assumptions (audited by ./check on every run). *)
 From V.lib Require Import Base.
-From V.c01 Require Import C01Codec C01Model C01LeafProofs C01Leaf2Proofs C01TableProofs C01TreeProofs C01Witness.
+From V.c01 Require Import C01Codec C01Model C01LeafProofs C01Leaf2Proofs C01Leaf3Proofs C01TableProofs C01TreeProofs C01WhyProofs C01Witness C01Witness3
+  C01RealFiles C01RealWitness.
 
 (* a compact header written by EncodeHeaderSW is read back by DecodeHeaderSR *)
 Theorem C01_header_rt : forall name sz r, lenN name = 4 -> 8 <= sz < 4294967296 ->
@@ -96,10 +97,39 @@ Print Assumptions C01_leaf_lossless_tfra.
 Theorem C01_leaf_lossless_pssh : leaf_lossless dec_pssh. Proof. exact lossless_pssh. Qed.
 Print Assumptions C01_leaf_lossless_pssh.
 
+(* stage 3 leaf kinds, and the field prefixes of the boxes that carry fields and children (MPre) *)
+Theorem C01_leaf_lossless_url : leaf_lossless dec_url. Proof. exact lossless_url. Qed.
+Print Assumptions C01_leaf_lossless_url.
+Theorem C01_leaf_lossless_avcC : leaf_lossless dec_avcC. Proof. exact lossless_avcC. Qed.
+Print Assumptions C01_leaf_lossless_avcC.
+Theorem C01_leaf_lossless_btrt : leaf_lossless dec_btrt. Proof. exact lossless_btrt. Qed.
+Print Assumptions C01_leaf_lossless_btrt.
+Theorem C01_leaf_lossless_pasp : leaf_lossless dec_pasp. Proof. exact lossless_pasp. Qed.
+Print Assumptions C01_leaf_lossless_pasp.
+Theorem C01_leaf_lossless_colr : leaf_lossless dec_colr. Proof. exact lossless_colr. Qed.
+Print Assumptions C01_leaf_lossless_colr.
+Theorem C01_leaf_lossless_clap : leaf_lossless dec_clap. Proof. exact lossless_clap. Qed.
+Print Assumptions C01_leaf_lossless_clap.
+Theorem C01_leaf_lossless_schm : leaf_lossless dec_schm. Proof. exact lossless_schm. Qed.
+Print Assumptions C01_leaf_lossless_schm.
+Theorem C01_leaf_lossless_cslg : leaf_lossless dec_cslg. Proof. exact lossless_cslg. Qed.
+Print Assumptions C01_leaf_lossless_cslg.
+Theorem C01_leaf_lossless_stsd : leaf_lossless dec_stsd. Proof. exact lossless_stsd. Qed.
+Print Assumptions C01_leaf_lossless_stsd.
+Theorem C01_leaf_lossless_dref : leaf_lossless dec_dref. Proof. exact lossless_dref. Qed.
+Print Assumptions C01_leaf_lossless_dref.
+Theorem C01_leaf_lossless_visual : leaf_lossless dec_visual. Proof. exact lossless_visual. Qed.
+Print Assumptions C01_leaf_lossless_visual.
+Theorem C01_leaf_lossless_audio : leaf_lossless dec_audio. Proof. exact lossless_audio. Qed.
+Print Assumptions C01_leaf_lossless_audio.
+
 (* the dispatch table as a whole: every registered entry of the model is lossless and names its leaf *)
 Theorem C01_leaf_table : Forall entry_ok leaf_table.
 Proof. exact leaf_table_ok. Qed.
 Print Assumptions C01_leaf_table.
+Theorem C01_pre_table : Forall pre_entry_ok pre_table.
+Proof. exact pre_table_ok. Qed.
+Print Assumptions C01_pre_table.
 
 (* the tree: every slice accepted by the model of DecodeBoxSR whose tree is exact (compact headers whose size
    is Size(), guarded versions, no moov re-ordering, moof encodable) is reproduced bit for bit by the encoders
@@ -109,6 +139,41 @@ Theorem C01_tree : forall bs t rest, bytes_ok bs = true -> decode bs = Ok (t, re
   exists enc, raw_box true t = Ok enc /\ bs = enc ++ rest.
 Proof. exact tree_lossless. Qed.
 Print Assumptions C01_tree.
+
+(* a file: the box loop of DecodeFileSR, written back by File.Encode in box-tree mode *)
+Theorem C01_file_tree : forall bs ts, bytes_ok bs = true -> decode_file bs = Ok ts -> forallb exact_box ts = true ->
+  encode_seq true ts = Ok bs.
+Proof. exact (fun bs ts => seq_lossless (S (length bs)) bs ts). Qed.
+Print Assumptions C01_file_tree.
+
+(* the reasons of why_box are complete: a decoded tree for which the model gives no reason is exact and all its
+   captured bytes have the values the encoders write; the Go encoders (raw_box false) then reproduce the input *)
+Theorem C01_why_complete : forall t, why_box t = [] -> exact_box t = true /\ rsv_default t = true.
+Proof. exact why_nil. Qed.
+Print Assumptions C01_why_complete.
+
+Theorem C01_explained : forall bs t rest, bytes_ok bs = true -> decode bs = Ok (t, rest) -> why_box t = [] ->
+  exists enc, raw_box false t = Ok enc /\ bs = enc ++ rest.
+Proof. exact explained. Qed.
+Print Assumptions C01_explained.
+
+(* C01_fixpoint, full statement (NOT proved; explored on the implementation by the search):
+     decode bs = Ok (t, []) -> exact_box t = true ->
+     exists enc t', raw_box false t = Ok enc /\ decode enc = Ok (t', []) /\ t' = t up to the captured bytes /\
+                    raw_box false t' = Ok enc.
+   Proved: the case in which the captured reserved bytes of the input already have the encoder's values
+   (why_box t = []; then enc = bs and t' = t).  Missing: the decoders' independence of the reserved bytes
+   (one print-then-parse lemma per leaf kind). *)
+Theorem C01_fixpoint_partial : forall bs t, bytes_ok bs = true -> decode bs = Ok (t, []) -> why_box t = [] ->
+  exists enc, raw_box false t = Ok enc /\ decode enc = Ok (t, []) /\ raw_box false t = Ok enc /\ enc = bs.
+Proof. exact fixpoint_partial. Qed.
+Print Assumptions C01_fixpoint_partial.
+
+(* the same for a file in box-tree mode (same restriction) *)
+Theorem C01_file_boxtree_partial : forall bs ts, bytes_ok bs = true -> decode_file bs = Ok ts ->
+  flat_map why_box ts = [] -> encode_seq false ts = Ok bs /\ decode_file bs = Ok ts.
+Proof. exact seq_explained. Qed.
+Print Assumptions C01_file_boxtree_partial.
 
 (* --- what the guards exclude is really lost (witnesses replayed on the Go code by the check) --- *)
 (* witnesses of the version >= 2 defect of mvhd / tkhd (decode on version==1, encode on Version==0, Size on
@@ -131,6 +196,32 @@ Theorem C01_trailing_refuted : exists bs t rest enc,
 Proof. exact mfhd_trailing_refuted. Qed.
 Print Assumptions C01_trailing_refuted.
 
+(* one witness per defect class the model exposes (the reasons of why_box listed as known findings) *)
+Theorem C01_visual_padding_refuted : refutes w_vis_pad [(n_avc1, RRsv false 3)].
+Proof. exact vis_pad_refuted. Qed.
+Print Assumptions C01_visual_padding_refuted.
+Theorem C01_visual_depth_refuted : refutes w_vis_depth [(n_hvc1, RRsv false 4)].
+Proof. exact vis_depth_refuted. Qed.
+Print Assumptions C01_visual_depth_refuted.
+Theorem C01_audio_fraction_refuted : refutes w_audio_frac [(n_mp4a, RRsv false 3)].
+Proof. exact audio_frac_refuted. Qed.
+Print Assumptions C01_audio_fraction_refuted.
+Theorem C01_avcC_bits_refuted : refutes w_avcc_bits [(n_avcC, RRsv true 0); (n_avcC, RRsv true 1)].
+Proof. exact avcc_bits_refuted. Qed.
+Print Assumptions C01_avcC_bits_refuted.
+Theorem C01_avcC_extra_refuted : refutes w_avcc_extra [(n_avcC, RSizeBig); (n_avcC, RRsv false 5)].
+Proof. exact avcc_extra_refuted. Qed.
+Print Assumptions C01_avcC_extra_refuted.
+Theorem C01_colr_bits_refuted : refutes w_colr_bits [(n_colr, RRsv true 0)].
+Proof. exact colr_bits_refuted. Qed.
+Print Assumptions C01_colr_bits_refuted.
+Theorem C01_url_tail_refuted : refutes w_url_tail [(n_url, RSizeBig)].
+Proof. exact url_tail_refuted. Qed.
+Print Assumptions C01_url_tail_refuted.
+Theorem C01_stsd_nobody_fixed : decode w_stsd_nobody = Err.
+Proof. exact stsd_nobody_fixed. Qed.
+Print Assumptions C01_stsd_nobody_fixed.
+
 (* non-vacuity: a moof and a moov tree decode, are exact, and re-encode to themselves *)
 Example C01_ex_moof : decode ex_moof_bytes = Ok (ex_moof_tree, []) /\ exact_box ex_moof_tree = true /\
   bytes_ok ex_moof_bytes = true /\ encode_w ex_moof_tree = Ok ex_moof_bytes.
@@ -138,3 +229,23 @@ Proof. exact ex_moof_ok. Qed.
 Example C01_ex_moov : decode ex_moov_bytes = Ok (ex_moov_tree, []) /\ exact_box ex_moov_tree = true /\
   bytes_ok ex_moov_bytes = true.
 Proof. exact ex_moov_ok. Qed.
+
+(* stsd{avc1{avcC btrt}}: the MPre case of C01_tree / C01_explained is inhabited *)
+Example C01_ex_stsd : exact_box (treeof ex_stsd_bytes) = true /\ why_box (treeof ex_stsd_bytes) = [] /\
+  decode ex_stsd_bytes = Ok (treeof ex_stsd_bytes, []) /\ raw_box false (treeof ex_stsd_bytes) = Ok ex_stsd_bytes /\
+  bytes_ok ex_stsd_bytes = true /\ lenN ex_stsd_bytes = 151.
+Proof. exact ex_stsd_ok. Qed.
+
+(* COMPLETE REAL FILES of /repo testdata decode inside the model, are exact, and the Go encoders' bytes are the file:
+   an init segment (ftyp moov{... stsd{avc3{avcC}} ...}) and a media segment (styp sidx moof{mfhd traf{tfhd tfdt trun}} mdat) *)
+Example C01_real_init_segment :
+  decode_file rf_init_video = Ok (seq_of rf_init_video) /\ names_of (seq_of rf_init_video) = [n_ftyp; n_moov] /\
+  forallb exact_box (seq_of rf_init_video) = true /\ bytes_ok rf_init_video = true /\
+  encode_seq false (seq_of rf_init_video) = Ok rf_init_video.
+Proof. exact real_init_ok. Qed.
+Example C01_real_media_segment :
+  decode_file rf_media_seg = Ok (seq_of rf_media_seg) /\
+  names_of (seq_of rf_media_seg) = [n_styp; n_sidx; n_moof; n_mdat] /\
+  forallb exact_box (seq_of rf_media_seg) = true /\ bytes_ok rf_media_seg = true /\
+  encode_seq false (seq_of rf_media_seg) = Ok rf_media_seg.
+Proof. exact real_media_ok. Qed.
